@@ -42,7 +42,7 @@ RetryListOf(keys) == IF \E i \in DOMAIN keys : keys[i].retry THEN Vec16(FlaggedC
 ScnOf(ev) == [sc |-> ev.sc, id |-> ev.id, sname |-> ev.sname, pubname |-> ev.pubname, server |-> ev.server, hrr_group |-> ev.hrr_group,
               cert |-> ev.cert, cfg_list |-> ev.cfg_list, retry_list |-> RetryListOf(ev.srv_keys)]
 \* the harness built the configuration the scenario asks for (else the machinery is broken, not the library)
-ScnSane(ev, c) == /\ ev.server \in ServerModes /\ ev.cert \in CertKinds /\ ev.sname # ev.pubname
+ScnSane(ev, c) == /\ ev.server \in ServerModes /\ ev.usage \in Range(Usages) /\ ev.cert \in CertKinds /\ ev.sname # ev.pubname
                   /\ ShapeSane(ev.shape, ParseCfgList(ev.cfg_list))
                   /\ c.ok /\ c.id = ev.cfgid /\ c.maxlen = ev.maxlen /\ c.pubname = ev.pubname /\ PickSuite(c).aead = ev.aead
 OnScn(ev) == /\ scn' = ScnOf(ev)
